@@ -100,6 +100,30 @@ def run (op : String) (a : Json) : Option (Except String Json) :=
       pure <| match xmlSerializerRenderLxml benv Γ (isDatatype Γ) (serCfg a) { indent := ind, xmlDeclaration := decl } [] v with
         | .ok (d, t) => ok (jObj [("declaration", jStr d), ("tree", jTree t)])
         | .error e => jErr e
+  | "c08.native_parse" => some do
+      -- the whole native route for one kind of source: `from_*` chain, `XmlEventHandler.parse` dispatch,
+      -- `process_context`; the world: the document's bytes, one file, the tokeniser's events for them
+      let d ← dXTree (field a "doc")
+      let wk ← dList (dPair dStr dStr) (field a "well_known")
+      let xs ← dList dNat (field a "bytes")
+      let bytes : Bytes := xs.map (·.toUInt8)
+      let path ← dStr (field a "path")
+      let W : World := {
+        encode := fun _ => bytes
+        fs := fun p => if p = path then some bytes else none
+        tokenise := fun b => if b = bytes then toks d else [] }
+      let src ← match field a "kind" with
+        | .str "str" => pure (Src.str [])
+        | .str "bytes" => pure (Src.bytes bytes)
+        | .str "file" => pure (Src.file bytes)
+        | .str "path" => pure (Src.path path)
+        | .str "missing_path" => pure (Src.path ("/nonexistent/".toList ++ path))
+        | .str "et_tree" => pure (Src.etTree d)
+        | .str "et_element" => pure (Src.etElement d)
+        | _ => .error "bad source kind"
+      pure <| ok <| match nativeParse W wk src with
+        | none => Json.null
+        | some evs => jObj [("events", jList jPEv evs), ("ns_map", jNs (recorded evs))]
   | "c08.hsource" => some do
       -- PushParser.from_string / from_bytes / from_path / parse: what `handler.parse` receives
       let dBytes (j : Json) : Except String Bytes := do
